@@ -326,7 +326,14 @@ def c19_9(ctx):
     return out
 
 
+def c19_10(ctx):
+    """MUTABLE-DEFAULT: messages built with default arguments do not share one item list"""
+    from sa.mutdefault import mutable_default_obligation
+    return mutable_default_obligation(ctx, ["network", "compactfilter", "bloomfilter", "merkleblock"], "a second message repeats the first one's entries and its count")
+
+
 OBLIGATIONS = [
+    ("C19.10", "MUTABLE-DEFAULT", c19_10),
     ("C19.1", "GUARD", c19_1),
     ("C19.2", "GUARD", c19_2),
     ("C19.3", "LAYOUT", c19_3),
